@@ -248,8 +248,12 @@ meta("C13",
                   "back to its entry value; FreeUriMembers twice is harmless; realloc/reallocarray are never used; an incomplete "
                   "manager or NULL argument is rejected before anything is allocated; uriMemoryManagerIsComplete under an unbounded "
                   "function contract. The NULL-manager => default-manager branch is the URI_CHECK_MEMORY_MANAGER macro, covered "
-                  "syntactically by the call-graph fact and not exercised with the C library allocator."),
-     assumptions=[MM_ASSUME, BOUNDED_NOTE, "default (libc) manager path not executed symbolically"],
+                  "syntactically by the call-graph fact and not exercised with the C library allocator. ManagerEntry (complete: loop-free): "
+                  "each of the ten manager-taking functions with each of five incomplete managers and arbitrary argument contents: the "
+                  "dedicated code, no request, no release, output objects untouched. NullArgs (complete): the NULL-argument exits with a "
+                  "stale output URI release nothing, nor does the caller's cleanup. Wrappers (complete): the 23 thin public wrappers "
+                  "hand the default manager (NULL) and their own arguments to the manager-taking function, once."),
+     assumptions=[MM_ASSUME, BOUNDED_NOTE, "default (libc) manager path not executed symbolically: the five uriDefault* forwarders are under no obligation"],
      level_text="ledger postconditions in every whole-operation obligation (bounded) + static call-graph fact + entry-check contracts",
      level_note="bounded in list and text length; default-manager path only by the static fact")
 
@@ -272,11 +276,15 @@ meta("C17",
                   "uriAppendQueryItem (discharging that stub): exact-size unescaped copies, NULL vs empty value, complete roll-back; "
                   "(3) uriComposeQueryEx / CharsRequiredEx on fixed-size inputs: the chars-required figure is sufficient, "
                   "written == length+1, nothing written outside a destination of exactly maxChars characters, only characters "
-                  "legal in a query; (4) escaping/unescaping content and round trip from C16. The INT_MAX guards of "
-                  "uriComposeQueryEngine for very long strings are NOT yet under an obligation."),
-     assumptions=[BOUNDED_NOTE, "INT_MAX overflow guards of uriComposeQueryEngine / uriComposeQueryMallocExMm: not decided in this version"],
-     level_text="bounded modular obligations for dissect (callee by contract stub), append item, compose sizes/legal characters",
-     level_note="bounded; overflow-guard clause not decided")
+                  "legal in a query; (4) escaping/unescaping content and round trip from C16; (5) ComposeSizes: the engine with SYMBOLIC "
+                  "string lengths (uriEscapeEx and strlen by contract stubs): chars required == worst-case sum, sufficient, written == "
+                  "length+1, room for every escape call inside maxChars, per-string and total sizes beyond INT_MAX refused, no int "
+                  "overflow - bounded in the number of items only; (6) Wrappers: the eight convenience entry points hand the documented "
+                  "defaults to the engines. The total-size overflow found by (5) was repaired (fix: 4076e15)."),
+     assumptions=[BOUNDED_NOTE, "uriEscapeEx inside ComposeSizes is its contract stub (clauses proved by EscapeEx.A.N for char; the wchar_t escape function has only the bounded content obligations)",
+                  "uriComposeQueryMallocExMm's INT_MAX guard (charsRequired == INT_MAX) is covered only through the small-size ComposeQueryMalloc obligation"],
+     level_text="bounded modular obligations for dissect (callee by contract stub), append item, compose sizes/legal characters; size arithmetic with symbolic string lengths; wrappers complete",
+     level_note="bounded in item count / text length; size arithmetic unbounded in string lengths")
 
 meta("C18",
      explanation=("uriUnixFilenameToUriString / uriWindowsFilenameToUriString and back, through the real uriFilenameToUriString / "
